@@ -1,2 +1,8 @@
-"""Reasons for properties not claimed (kept current by hand)."""
+"""Hand-maintained manifest inputs."""
+# families whose checks are finished, reviewed and claimed in MANIFEST.json
+READY_FAMILIES = [
+    "mergesource", "algebra", "tombstone", "tuplestore", "pushpipe", "sinkpipe",
+    "mpsc", "wake", "graphalgo", "partition", "determinism",
+]
+# reasons for properties not claimed
 NOT_APPLICABLE_REASON = {}
